@@ -96,6 +96,23 @@ def outcome_kind(ex):
     return "halt:" + type(err).__name__
 
 
+def create2_names(ex):
+    """halmos' convention for CREATE2 addresses: the keccak of an 85-byte preimage whose first byte is the
+    constant 0xff is not kept as a hash term but NAMED create2_magic_address + (registration number of the hash
+    term on the path) (Exec.sha3_data).  -> [(name, preimage term)] in registration order."""
+    from halmos.sevm import create2_magic_address
+
+    out = []
+    for expr in ex.sha3s:
+        if not (z3.is_app(expr) and expr.num_args() == 1 and z3.is_bv(expr.arg(0)) and expr.arg(0).size() == 680):
+            continue
+        pre = expr.arg(0)
+        first = z3.simplify(z3.Extract(679, 672, pre))
+        if z3.is_bv_value(first) and first.as_long() == 0xFF:
+            out.append((create2_magic_address + ex.sha3s.get_id(expr), pre))
+    return sorted(out, key=lambda t: t[0])
+
+
 class PathRecord:
     """Everything needed about one reported path, detached from the worklist."""
 
@@ -111,6 +128,7 @@ class PathRecord:
         self.balance = ex.balance
         self.code = {}
         self.logs = []       # (address, [topics], data, nbytes) of the frames whose effects persist, in order
+        self.c2 = create2_names(ex)
         if self.kind == "ok":
             self._read_back(scn)
             self._collect_logs(ex.context)
@@ -205,6 +223,17 @@ class PathRecord:
             return True, ev
         except zeval.Unknown as e:
             return None, str(e)
+
+    def c2names(self, ev):
+        """{EVM address: halmos' name for it} of this path under a valuation: each registered CREATE2 preimage is
+        evaluated and hashed with the real Keccak-256; when two names denote the same address the older one wins
+        (the reference then sees ONE account, as the EVM does)"""
+        out = {}
+        for name, pre in self.c2:
+            data = ev.ev(pre).to_bytes(85, "big")
+            real = int.from_bytes(zeval.keccak(data)[12:], "big")
+            out.setdefault(real, name)
+        return out
 
     def ret_bytes(self, ev):
         if isinstance(self.ret, bytes):
